@@ -42,7 +42,7 @@ func oracleRun(bin string, wall time.Duration, corpusPath string, order string, 
 	capf := filepath.Join(scratch, "p", fmt.Sprintf("ocap.%d", n))
 	os.MkdirAll(filepath.Join(scratch, "p"), 0o755)
 	args = append(args, "-out", out, "-capture", capf)
-	env := append(os.Environ(), "GOMAXPROCS=1")
+	env := append(os.Environ(), "GOMAXPROCS=1", "GODEBUG=")
 	o, err := run(filepath.Join(scratch, "p"), env, wall, bin, args...)
 	if err != nil {
 		cb, _ := os.ReadFile(capf)
